@@ -22,7 +22,7 @@ func init() {
 		Technique:        "reference-model monitor (Jacobi symbol, squaring and curve equation in math/big) on every call + operand snapshot",
 		MinEvals:         map[string]int64{"quick": 60000, "thorough": 600000},
 		MinClasses:       map[string]int64{"quick": 2000, "thorough": 4000},
-		RequiredCounters: []string{"nil_expected_and_observed", "roots_verified", "points_recovered"},
+		RequiredCounters: []string{"retained_results_rechecked", "nil_expected_and_observed", "roots_verified", "points_recovered"},
 		Assumptions:      []string{"math/big Jacobi/ModSqrt are the oracle; the decimal constant of the 2^32-th root of unity is checked to have order exactly 2^32"},
 		Plan: func(tier string) []Child {
 			return shardsVar(pick(tier, 8, 16), Child{Flavour: "plain", NCPU: 1})
@@ -82,9 +82,17 @@ func c17sqrt(c *mon.Ctx, v *big.Int, cls string) {
 	if x != keep {
 		c.Fail("input-modified/SqrtPrecomp", "SqrtPrecomp modified its argument", map[string]string{"v": v.Text(16)})
 	}
-	// the returned element belongs to the caller: scribbling on it must not influence later calls
+	// the returned element belongs to the caller: scribbling on it must not influence later calls, and what the caller
+	// wrote must still be there after many further calls (the result is not a recycled slot)
 	if res != nil {
-		res.SetUint64(0xBAD0BAD0)
+		res.SetUint64(0xBAD0BAD0 + uint64(c17calls))
+		mark := *res
+		c17kept.Keep(c, "SqrtPrecomp", func() string {
+			if *res != mark {
+				return "the element returned by SqrtPrecomp for " + v.Text(16) + " no longer holds what the caller stored in it"
+			}
+			return ""
+		})
 	}
 	c17calls++
 	if c17calls%32 == 0 {
@@ -102,12 +110,17 @@ func c17sqrt(c *mon.Ctx, v *big.Int, cls string) {
 }
 
 var c17calls int
+var c17kept Retainer
+
+var c17pcalls int
 
 func c17point(c *mon.Ctx, xv *big.Int, cls string) {
 	x := FpFromBig(xv)
 	keep := x
 	yL, yS, ok := ref.YFromX(xv)
-	for _, largest := range []bool{true, false} {
+	// the same x is asked for several times in a row, the two roots in varying order
+	c17pcalls++
+	for _, largest := range [][]bool{{true, false, true}, {false, true, false}, {false, false, true}, {true, true, false}}[c17pcalls%4] {
 		pt := bandersnatch.GetPointFromX(&x, largest)
 		if x != keep {
 			c.Fail("input-modified/GetPointFromX", "GetPointFromX modified x", nil)
@@ -142,9 +155,16 @@ func c17point(c *mon.Ctx, xv *big.Int, cls string) {
 			c.Fail("point-off-curve", "recovered point is not on the curve", nil)
 		}
 		c.Count("points_recovered", 1)
-		// scribble on the returned point: it must be the caller's own copy
+		// scribble on the returned point: it must be the caller's own copy, and stay so
 		pt.X.SetUint64(1)
-		pt.Y.SetUint64(2)
+		pt.Y.SetUint64(2 + uint64(c17pcalls))
+		mark := *pt
+		c17kept.Keep(c, "GetPointFromX", func() string {
+			if *pt != mark {
+				return "the point returned by GetPointFromX no longer holds what the caller stored in it"
+			}
+			return ""
+		})
 	}
 	kind := "oncurve"
 	if !ok {
@@ -315,4 +335,5 @@ func runC17(c *mon.Ctx) {
 			}
 		})
 	}
+	c.Case("retained-results", func() { c17kept.Flush(c) })
 }
